@@ -1,5 +1,213 @@
 import WuffsVerif.Common.Line
-/-! Line driver for C13 — stub, not built yet. -/
-open WuffsVerif.Line
+import WuffsVerif.Model.Rac.WriteBuffer
+import WuffsVerif.Model.Rac.ChunkWriter
+import WuffsVerif.Model.Rac.Writer
+import WuffsVerif.Model.Rac.HCodec
+import WuffsVerif.Model.Rac.Spec
+/-! Line driver for C13 (lib/rac writer.go, chunk_writer.go; doc/spec/rac-spec.md).
 
-def main : IO Unit := runPure (fun _ => "bad-op")
+Stateless ops
+  wbuf <prev> <curr> <p> peek <n>      -> <hex0> <hex1>
+  wbuf <prev> <curr> <p> advance <n>   -> panic | <prev[p:]> <curr>
+  wbuf <prev> <curr> <p> apz           -> <n> <prev[p:]> <curr>
+  wbuf <prev> <curr> <p> compact       -> <prev> <curr> <p>
+  wbuf <prev> <curr> <p> extend <hex>  -> panic | <prev[p:]> <curr>
+  wbuf <prev> <curr> <p> length        -> <n>
+  strip <hex>                          -> <hex>
+  clen <n>                             -> <n>
+  gather <codec> <leaves>              -> tree            leaves: d:s:t:col,d:s:t:col,…
+  calcsize <codec> <atEnd> <leaves>    -> <indexSize> tree
+  windex <codec> <atEnd> <cFileSize> <dataCOffset> <indexCOffset> <rcl-list> <leaves> -> ok <hex> | err <word> <hex>
+  spec <hex>                           -> ok <dFileSize> <n> <hash> <first chunks> | bad <rule>
+Stateful ops (after `reset`)
+  cw <loc> <cpagesize> <temp> <failAt>                   -> ok
+  addres <hex>                                           -> ok <id> <W> <T> | err <word> <W> <T>
+  addchunk <dsize> <codec> <hex> <sec> <ter>             -> ok <W> <T> | err <word> <W> <T>
+  cwclose                                                -> ok <W> <T> | err <word> <W> <T>
+  w <loc> <cpagesize> <temp> <failAt> <cchunk> <dchunk> <codec> <oob> <cancut> <nilwriter> <res,res,…|->  -> ok
+  write <hex>                                            -> ok <n> <W> <T> | err <word> <W> <T>
+  close                                                  -> ok <W> <T> | err <word> <W> <T>
+  specself                                               -> like spec, on everything written to Writer so far
+  decodeself                                             -> ok <hex> | bad <rule>
+<W>/<T>: bytes handed to Writer / TempFile during this op.
+-/
+open WuffsVerif WuffsVerif.Line WuffsVerif.Rac
+
+def hashStr (s : String) : Nat :=
+  s.foldl (fun h c => (h * 16777619 + c.toNat) % 18446744073709551616) 14695981039346656037
+
+partial def showTree (n : WNode) : String :=
+  if n.isBranch || !n.resources.isEmpty then
+    s!"B({n.dRangeSize},{showNatList n.resources},{n.cOffsetCLength},{n.codec})" ++ "{" ++
+      ",".intercalate (n.children.map showTree) ++ "}"
+  else s!"L({n.dRangeSize},{n.secondary},{n.tertiary},{n.cOffsetCLength})"
+
+def showTreeMaybeHashed (n : WNode) : String :=
+  let s := showTree n
+  if s.length > 20000 then s!"hash {s.length} {hashStr s}" else s
+
+def parseLeaves (codec : Nat) (s : String) : Option (List WNode) :=
+  if s == "-" then some [] else
+  (s.splitOn ",").mapM fun item =>
+    match (item.splitOn ":").map String.toNat? with
+    | [some d, some sec, some ter, some col] => some (WNode.leaf d col sec ter codec)
+    | _ => none
+
+def showChunk (c : Spec.Chunk) : String :=
+  s!"{c.dRange.lo}-{c.dRange.hi}:{c.cPrimary.lo}-{c.cPrimary.hi}:{c.cSecondary.lo}-{c.cSecondary.hi}:{c.cTertiary.lo}-{c.cTertiary.hi}:{c.stag}:{c.ttag}:{c.codec}"
+
+def chunkHash (cs : List Spec.Chunk) : Nat :=
+  cs.foldl (fun h c =>
+    [c.dRange.lo, c.dRange.hi, c.cPrimary.lo, c.cPrimary.hi, c.cSecondary.lo, c.cSecondary.hi,
+     c.cTertiary.lo, c.cTertiary.hi, c.stag, c.ttag, c.codec].foldl
+      (fun h x => (h * 1000003 + x) % 18446744073709551616) h) 7
+
+def specVerdict (file : Array UInt8) : String :=
+  match Spec.chunks file with
+  | .error e => "bad " ++ e.word
+  | .ok (d, cs) =>
+    if !Spec.tiles 0 cs d then "bad tiling" else
+    s!"ok {d} {cs.length} {chunkHash cs} " ++
+      (if cs.isEmpty then "-" else ";".intercalate ((cs.take 100).map showChunk))
+
+structure St where
+  cw : Option CW := none
+  w : Option (Writer × HCodec.Variant) := none
+  wSeen : Nat := 0
+  tSeen : Nat := 0
+  allW : List Bytes := []   -- newest first
+deriving Inhabited
+
+/-- pieces added since the last op, oldest first -/
+def delta (rev : List Bytes) (n seen : Nat) : Bytes := (rev.take (n - seen)).reverse.flatten
+
+def report (s : St) (io : IOSt) (res : String) : St × String :=
+  let dw := delta io.wRev io.wN s.wSeen
+  let dt := delta io.tRev io.tN s.tSeen
+  ({ s with wSeen := io.wN, tSeen := io.tN, allW := if dw.isEmpty then s.allW else dw :: s.allW },
+   s!"{res} {toHex dw} {toHex dt}")
+
+def resStr (e : Option Err) (okExtra : String := "") : String :=
+  match e with
+  | none => "ok" ++ okExtra
+  | some e => "err " ++ e.word
+
+def hDecompress (codec : Nat) (v : HCodec.Variant) : Nat → Bytes → Bytes → Bytes → Option Bytes :=
+  fun c p _ _ => if c == codec && c == v.codec then HCodec.decompress p else none
+
+def step (s : St) (l : List String) : St × String :=
+  match l with
+  | ["reset"] => ({}, "ok")
+  | "wbuf" :: prev :: curr :: p :: rest =>
+    match fromHex prev, fromHex curr, p.toNat? with
+    | some prev, some curr, some p =>
+      let b : WBuf := { prev, curr, p }
+      let st (b : WBuf) : String := s!"{toHex (b.prev.drop b.p)} {toHex b.curr}"
+      match rest with
+      | ["peek", n] => match n.toNat? with
+        | some n => let (a, c) := b.peek n; (s, s!"{toHex a} {toHex c}")
+        | none => (s, "bad-op")
+      | ["advance", n] => match n.toNat? with
+        | some n => (s, if b.advanceOk n then st (b.advance n) else "panic")
+        | none => (s, "bad-op")
+      | ["apz"] => let (b', n) := b.advancePastLeadingZeroes; (s, s!"{n} {st b'}")
+      | ["compact"] => let b' := b.compact; (s, s!"{toHex b'.prev} {toHex b'.curr} {b'.p}")
+      | ["extend", h] => match fromHex h with
+        | some h => (s, match b.extend h with | some b' => st b' | none => "panic")
+        | none => (s, "bad-op")
+      | ["length"] => (s, toString b.length)
+      | _ => (s, "bad-op")
+    | _, _, _ => (s, "bad-op")
+  | ["strip", h] => match fromHex h with
+    | some h => (s, toHex (stripTrailingZeroes h))
+    | none => (s, "bad-op")
+  | ["clen", n] => match n.toNat? with
+    | some n => (s, toString (calcCLength n))
+    | none => (s, "bad-op")
+  | ["gather", codec, leaves] =>
+    match codec.toNat? with
+    | some codec => match parseLeaves codec leaves with
+      | some (x :: xs) => (s, showTreeMaybeHashed (gather (x :: xs) (codecIsLong codec)))
+      | _ => (s, "bad-op")
+    | none => (s, "bad-op")
+  | ["calcsize", codec, atEnd, leaves] =>
+    match codec.toNat? with
+    | some codec => match parseLeaves codec leaves with
+      | some (x :: xs) =>
+        let (root, size) := (gather (x :: xs) (codecIsLong codec)).calcEncodedSize 0 (atEnd == "1")
+        (s, s!"{size} {showTreeMaybeHashed root}")
+      | _ => (s, "bad-op")
+    | none => (s, "bad-op")
+  | ["windex", codec, atEnd, cFileSize, dco, ico, rcl, leaves] =>
+    match codec.toNat?, cFileSize.toNat?, dco.toNat?, ico.toNat?, parseNatList rcl with
+    | some codec, some cFileSize, some dco, some ico, some rcl =>
+      match parseLeaves codec leaves with
+      | some (x :: xs) =>
+        let (root, _) := (gather (x :: xs) (codecIsLong codec)).calcEncodedSize 0 (atEnd == "1")
+        let nw : NodeWriter := { cFileSize := cFileSize, dataCOffset := dco, indexCOffset := ico, resourcesCOffCLens := rcl.toArray }
+        let (io, e) := writeIndex nw root (atEnd == "1") {}
+        (s, s!"{resStr e} {toHex io.wBytes}")
+      | _ => (s, "bad-op")
+    | _, _, _, _, _ => (s, "bad-op")
+  | ["spec", h] => match fromHex h with
+    | some h => (s, specVerdict h.toArray)
+    | none => (s, "bad-op")
+  | ["specself"] => (s, specVerdict s.allW.reverse.flatten.toArray)
+  | ["decodeself"] =>
+    match s.w with
+    | some (_, v) =>
+      (s, match Spec.decode s.allW.reverse.flatten.toArray (hDecompress v.codec v) with
+        | .ok d => "ok " ++ toHex d
+        | .error e => "bad " ++ e.word)
+    | none => (s, "bad-op")
+  | ["cw", loc, cps, temp, failAt] =>
+    match cps.toNat?, temp.toNat?, failAt.toNat? with
+    | some cps, some temp, some failAt =>
+      ({ cw := some { indexAtStart := loc == "1", cPageSize := cps, tempKind := temp, io := { failAt := failAt } } }, "ok")
+    | _, _, _ => (s, "bad-op")
+  | ["addres", h] =>
+    match s.cw, fromHex h with
+    | some cw, some h =>
+      let (cw, id, e) := cw.addResource h
+      report { s with cw := some cw } cw.io (resStr e s!" {id}")
+    | _, _ => (s, "bad-op")
+  | ["addchunk", dsize, codec, h, sec, ter] =>
+    match s.cw, dsize.toNat?, codec.toNat?, fromHex h, sec.toNat?, ter.toNat? with
+    | some cw, some dsize, some codec, some h, some sec, some ter =>
+      let (cw, e) := cw.addChunk dsize codec h sec ter
+      report { s with cw := some cw } cw.io (resStr e)
+    | _, _, _, _, _, _ => (s, "bad-op")
+  | ["cwclose"] =>
+    match s.cw with
+    | some cw =>
+      let (cw, e) := cw.close
+      report { s with cw := some cw } cw.io (resStr e)
+    | none => (s, "bad-op")
+  | ["w", loc, cps, temp, failAt, cchunk, dchunk, codec, oob, cancut, nilw, res] =>
+    match cps.toNat?, temp.toNat?, failAt.toNat?, cchunk.toNat?, dchunk.toNat?, codec.toNat? with
+    | some cps, some temp, some failAt, some cchunk, some dchunk, some codec =>
+      let resources : Option (List Bytes) := if res == "-" then some [] else (res.splitOn ",").mapM fromHex
+      match resources with
+      | some resources =>
+        let v : HCodec.Variant := { codec := codec, oob := oob == "1", canCut := cancut == "1" }
+        let w : Writer := { nilWriter := nilw == "1", indexAtStart := loc == "1", tempKind := temp, cPageSize := cps,
+                            cChunkSizeCfg := cchunk, dChunkSizeCfg := dchunk, resourcesData := resources,
+                            chunkWriter := { io := { failAt := failAt } } }
+        ({ w := some (w, v) }, "ok")
+      | none => (s, "bad-op")
+    | _, _, _, _, _, _ => (s, "bad-op")
+  | ["write", h] =>
+    match s.w, fromHex h with
+    | some (w, v), some h =>
+      let (w, n, e) := w.Write (HCodec.codecW v) h
+      report { s with w := some (w, v) } w.chunkWriter.io (resStr e s!" {n}")
+    | _, _ => (s, "bad-op")
+  | ["close"] =>
+    match s.w with
+    | some (w, v) =>
+      let (w, e) := w.Close (HCodec.codecW v)
+      report { s with w := some (w, v) } w.chunkWriter.io (resStr e)
+    | none => (s, "bad-op")
+  | _ => (s, "bad-op")
+
+def main : IO Unit := run ({} : St) step
